@@ -108,6 +108,7 @@ func (p *Prog) genFunc(fi *FuncInfo) (g *FuncGen) {
 			names[rnames[i]] = final.vars[o]
 		}
 		endPos := fi.Body.Rbrace
+		g.noAssume = true
 		for i, en := range fi.Spec.Ensures {
 			env := &CEnv{g: g, pkg: fi.Pkg, st: final, old: g.entry, names: names}
 			label := en.Label
